@@ -165,8 +165,20 @@ class Report:
             lines.append(f"VIOLATION property={self.pid} replay={path} obligation={v['obligation']} case={v['case']} :: {v['what']}{tail}")
         for h in self.known_hits:
             print(f"KNOWN-FINDING: property={self.pid} {h['obligation']} [{h['case']}] {h['what']}")
+        shown = {}
+        for v, l in zip([v for v in self.violations], lines):
+            pass
+        per_obl = {}
+        printed = 0
         for l in lines:
-            print(l)
+            ob = l.split(" obligation=")[1].split(" ")[0]
+            per_obl[ob] = per_obl.get(ob, 0) + 1
+            if per_obl[ob] <= 3 and printed < 12:
+                print(l[:900])
+                printed += 1
+        if len(lines) > printed:
+            print(f"... {len(lines) - printed} further violation cases (all written under replays/): " +
+                  ", ".join(f"{k} x{v}" for k, v in per_obl.items()))
         cov = dict(
             obligations=n,
             discharged=d,
